@@ -29,6 +29,7 @@ ASSUMPTIONS = [
   "x**alpha has unbounded slope at the zero end points (the argument error, < 1e-15, is "
   "what is bounded); COLA: max-min of the hop-shifted sums <= 1e-12 * (size/hop)",
   "every sample must be a real number (int/float, not complex): the closed forms are real",
+  "calling a strategy dictionary itself (window(size), wsymm(size)) is an access path to its default strategy, which must be one of the dictionary's own strategies (CHANGES.rst: the Hann window for both)",
   "blackman range claim [0,1] only for 0 <= alpha <= 0.25 (beyond that the closed form "
   "itself is negative near the edges); cos alpha >= 0 (0**negative is undefined)",
   "the bartlett/triangular oracles are the standard definitions 1-|2n-L|/L and "
@@ -223,9 +224,19 @@ def _sizes(tier):
   return 256 if tier == "quick" else 2048
 
 
+# beyond the dense range: sizes around powers of two up to 8192 (both parities, symmetric and
+# periodic), so that a size-dependent code path switched on for long windows is exercised too
+LARGE = sorted(set(n + d for n in (512, 1024, 2048, 4096, 8192) for d in (-2, -1, 0, 1, 2, 3)) | {3000, 3001, 6001, 6002})
+
+
+def _size_list(tier):
+  top = _sizes(tier)
+  return list(range(top + 1)) + [n for n in LARGE if n > top]
+
+
 def grid_cases(tier, shard, nshards):
   i = 0
-  for size in range(_sizes(tier) + 1):
+  for size in _size_list(tier):
     for name in ORDER:
       i += 1
       if i % nshards == shard:
@@ -313,6 +324,7 @@ def run_cola(case):
 def identity_cases(tier, shard, nshards):
   out = [{"kind": "dict", "which": w} for w in
          ("window.symm", "window.periodic", "wsymm.symm", "wsymm.periodic")]
+  out += [{"kind": "default", "size": n} for n in (0, 1, 2, 3, 8, 9, 64, 65)]
   for name in ORDER:
     for d in ("window", "wsymm"):
       for route in ("item", "attr"):
@@ -323,6 +335,25 @@ def identity_cases(tier, shard, nshards):
 
 
 def run_identity(case):
+  if case["kind"] == "default":
+    # calling a dictionary itself goes to its default strategy, which is one of its own strategies:
+    # the symmetric dictionary's default is a symmetric window, the periodic one's a periodic window
+    n = case["size"]
+    for d, dname in ((window, "window"), (wsymm, "wsymm")):
+      f = d.default
+      if not any(f is g for g in d):
+        raise Violation("%s.default is not one of %s's own strategies" % (dname, dname))
+      if d(n) != f(n):
+        raise Violation("%s(%d) differs from %s.default(%d)" % (dname, n, dname, n))
+    if wsymm.default.periodic is not window.default or window.default.symm is not wsymm.default:
+      raise Violation("the two dictionaries' defaults are not each other's periodic / symmetric version")
+    if wsymm(1) != [1.0] or window(n) != wsymm(n + 1)[:n] or window.symm(n) != wsymm(n):
+      raise Violation("default call: wsymm(1)=%r, window(%d)=%r, wsymm(%d)[:%d]=%r"
+                      % (wsymm(1), n, window(n), n + 1, n, wsymm(n + 1)[:n]))
+    sy = wsymm(n)
+    if any(abs(a - b) > 1e-12 for a, b in zip(sy, sy[::-1])):
+      raise Violation("wsymm(%d) called through the default is not symmetric: %r" % (n, sy))
+    return {"nontrivial": n >= 3, "labels": ["default strategy call"]}
   if case["kind"] == "dict":
     got, exp = {
       "window.symm": (window.symm, wsymm), "window.periodic": (window.periodic, window),
